@@ -330,6 +330,9 @@ func (env *Env) isExecutionEnabled(s *State, b *Block) bool {
 	return refssz.Root(payloadSSZ(s.F, &b.Body.ExecutionPayload), c.Params()) != refssz.Root(payloadSSZ(s.F, &def), c.Params())
 }
 
+// IsExecutionEnabled: is_execution_enabled(state, body) on a state that has been advanced to the block's slot.
+func (env *Env) IsExecutionEnabled(s *State, b *Block) bool { return s.F >= Capella || env.isExecutionEnabled(s, b) }
+
 func payloadSSZ(f ForkID, p *Payload) interface{} {
 	switch f {
 	case Bellatrix:
